@@ -739,7 +739,16 @@ class Interp:
             return Z(z3.Function("U_getitem", V.Val, V.Val, V.Val)(zo, zk))
         # symbolic container: fork on kind
         kind = self.path.choose([V.is_dict(zo), V.is_seq(zo), V.is_str(zo),
-                                 z3.Not(z3.Or(V.is_dict(zo), V.is_seq(zo), V.is_str(zo)))])
+                                 z3.Not(z3.Or(V.is_dict(zo), V.is_seq(zo), V.is_str(zo), V.is_range(zo))), V.is_range(zo)])
+        if kind == 4:
+            # range(lo, hi)[i] (step 1)
+            self.guard([("TypeError", z3.Not(V.is_integral(zk)))])
+            lo, hi = V.Val.lo(zo), V.Val.hi(zo)
+            n = z3.If(hi > lo, hi - lo, z3.IntVal(0))
+            i = V.intval(zk)
+            j = z3.If(i < 0, i + n, i)
+            self.guard([("IndexError", z3.Or(j < 0, j >= n))])
+            return Z(V.VInt(lo + j))
         if kind == 0:
             self.guard([("TypeError", z3.Not(V.hashable(zk)))])
             idx = V.dict_index(zo, zk)
